@@ -212,12 +212,6 @@ def _ones(shape):
     return [_ones(shape[1:]) for _ in range(shape[0])]
 
 
-def _set_first(v, x):
-    if not isinstance(v, list):
-        return x
-    return [_set_first(v[0], x)] + v[1:]
-
-
 def _replace_identity(r, keep_head):
     for i, node in enumerate(list(R.walk(r))):
         if node["op"] == "Identity" and not (i == 0 and keep_head):
@@ -332,21 +326,17 @@ def cases(draw, tier):
                         node["base"] = gen.gen(draw, cfg2, "any", k, k, tuple(bshp[:-2]), draw(st.integers(1, 2)))
                         for key in ("li", "ri"):
                             node[key]["lit"] = gen._map2(node[key]["lit"], lambda v: v % k)
-    if "interp_all_zero_values" in trig:
-        for x in rs:
-            for node in R.walk(x):
-                if node["op"] == "Interpolated":
-                    for k in ("lv", "rv"):
-                        if not bool(L.value(node[k]).any()):
-                            node[k]["lit"] = _set_first(node[k]["lit"], 1.0)
     case["rg_mode"] = _mark_leaves(draw, rs, allow_exp="no_expanded_leaves" not in trig)
     if "singular_kronecker_factor_symeig" in trig:
-        # avoid exactly the trigger: the singular factor F is replaced by the (positive definite) dense matrix F + I
-        for kron, f in _singular_kron_factors(rs):
+        # avoid exactly the trigger: the singular PSD sub-matrix F is replaced by the (positive definite) dense matrix F + I
+        for parent, (key, i), f in _singular_kron_factors(rs):
             M = refmodel.dense(f)
             M = 0.5 * (M + M.mT) + torch.eye(M.shape[-1], dtype=M.dtype)
-            i = [id(a) for a in kron["args"]].index(id(f))
-            kron["args"][i] = {"op": "Dense", "t": L.lit(M.tolist(), "f64")}
+            repl = {"op": "Dense", "t": L.lit(M.tolist(), "f64")}
+            if key == "args":
+                parent["args"][i] = repl
+            else:
+                parent["base"] = repl
     if "batched_interp_values_under_autograd_derivative" in trig:
         for node in _batched_interp_under_autograd(rs):
             node["lv"].pop("rg", None)
@@ -413,9 +403,7 @@ def cases(draw, tier):
     cell = {"memory_efficient": draw(st.booleans())}
     if ep in CG_EPS and draw(st.integers(0, 2)) == 0:
         cell["max_cholesky_size"] = 0
-        if ep == "root_decomposition" and "lanczos_root_leading_unit_batch" in trig and _leading_unit_batch(r):
-            del cell["max_cholesky_size"]
-        elif "lanczos_diagonalization" in trig and _has_kron_added_diag(r):
+        if "lanczos_diagonalization" in trig and _has_kron_added_diag(r):
             del cell["max_cholesky_size"]
     case["cell"] = cell
     return case
@@ -1238,7 +1226,8 @@ def _check_bilinear(case, info, done, fail, nontrivial):
         else:
             ref.append(None)
     try:
-        with state.apply_settings({"memory_efficient": bool(case["cell"]["memory_efficient"])}):
+        # (called the way the library's Functions call it: from a backward pass, i.e. with grad mode disabled)
+        with state.apply_settings({"memory_efficient": bool(case["cell"]["memory_efficient"])}), torch.no_grad():
             got = op._bilinear_derivative(U, V)
     except Exception as e:
         if X.is_declined(e, None):
@@ -1385,22 +1374,39 @@ def _batched_interp_under_autograd(recs, only_rg=True):
     return found
 
 
+SYMEIG_FAMILY = ("Kronecker", "KroneckerAddedDiag", "SumKronecker")
+SYMEIG_PASSES_DOWN = SYMEIG_FAMILY + ("AddedDiag", "ConstantMul", "BatchRepeat")
+
+
 def _singular_kron_factors(recs):
-    """Kronecker factors (below KroneckerAddedDiag / SumKronecker, whose closed forms run _symeig on every factor) with an
-    eigenvalue that is zero to rounding: `evals.clamp_min(0.0)` in LinearOperator._symeig has derivative 0 there."""
+    """(parent node, slot, node): symmetric PSD sub-matrices with an eigenvalue that is zero to rounding, lying below a
+    Kronecker-family node and reached through nodes that hand _symeig down to their children (Kronecker factors, the base of
+    an AddedDiag with a constant diagonal, ...): `evals.clamp_min(0.0)` in LinearOperator._symeig has derivative 0 there."""
     found = []
+
+    def slots(node):
+        out = [(("args", i), a) for i, a in enumerate(node.get("args", []))]
+        if "base" in node:
+            out.append((("base", None), node["base"]))
+        return out
+
+    def visit(node, below):
+        inside = below or node["op"] in SYMEIG_FAMILY
+        for slot, ch in slots(node):
+            if inside and node["op"] in SYMEIG_PASSES_DOWN:
+                M = refmodel.dense(ch)
+                if M.shape[-1] == M.shape[-2] and bool(torch.allclose(M, M.mT)):
+                    w = torch.linalg.eigvalsh(0.5 * (M + M.mT))
+                    top = w.abs().max(dim=-1)[0]
+                    if bool(((w.min(dim=-1)[0] <= 1e-9 * top) & (w.min(dim=-1)[0] >= -1e-9 * top)).any()) and ch["op"] not in SYMEIG_FAMILY:
+                        found.append((node, slot, ch))
+                        continue
+                visit(ch, True)
+            else:
+                visit(ch, inside and node["op"] in SYMEIG_PASSES_DOWN)
+
     for x in recs:
-        for node in R.walk(x):
-            if node["op"] in ("KroneckerAddedDiag", "SumKronecker"):
-                for a in node["args"]:
-                    if a["op"] == "Kronecker":
-                        for f in a["args"]:
-                            M = refmodel.dense(f)
-                            if M.shape[-1] != M.shape[-2]:
-                                continue
-                            w = torch.linalg.eigvalsh(0.5 * (M + M.mT))
-                            if bool((w.min(dim=-1)[0] <= 1e-9 * w.abs().max(dim=-1)[0].clamp_min(1e-300)).any()):
-                                found.append((a, f))
+        visit(x, False)
     return found
 
 
@@ -1408,38 +1414,13 @@ def _has_kron_added_diag(r):
     return any(n["op"] in ("KroneckerAddedDiag", "SumKronecker") for n in R.walk(r))
 
 
-def _leading_unit_batch(r):
-    for n in R.walk(r):
-        bs = refmodel.shape(n)[:-2]
-        if len(bs) >= 2 and bs[0] == 1:
-            return True
-    return False
-
-
-def _lanczos_root_unit_batch(case):
-    return case["ep"] == "root_decomposition" and case["cell"].get("max_cholesky_size") == 0 and _leading_unit_batch(case["recipe"])
-
-
-def _interp_zero_values(case):
-    recs = [case["recipe"]] + ([case["recipe2"]] if "recipe2" in case else [])
-    for x in recs:
-        for n in R.walk(x):
-            if n["op"] == "Interpolated":
-                for k in ("lv", "rv"):
-                    if n[k].get("rg") and not bool(L.value(n[k]).any()):
-                        return True
-    return False
-
-
 TRIGGERS = {
-    "lanczos_root_leading_unit_batch": _lanczos_root_unit_batch,
     "lanczos_diagonalization": lambda case: case["cell"].get("max_cholesky_size") == 0 and _has_kron_added_diag(case["recipe"]),
     "singular_kronecker_factor_symeig": lambda case: bool(_singular_kron_factors([case["recipe"]] + ([case["recipe2"]] if "recipe2" in case else []))),
     "batched_interp_values_under_autograd_derivative": lambda case: bool(
         _batched_interp_under_autograd([case["recipe"]] + ([case["recipe2"]] if "recipe2" in case else []))
     ),
     "has_Mul": lambda case: case["ep"] == "op_mul" or _has("Mul")(case),
-    "interp_all_zero_values": _interp_zero_values,
     "identity_derivative_arity": _identity_arity,
     "mul_rebuild_reorders": _mul_rebuild_reorders,
     "interpolated_rect_base": _interp_rect_base,
